@@ -221,8 +221,11 @@ func main() {
 		ms.Hosts = nil
 		ms.Funcs = []*c.FuncSpec{{Sig: c.Sig{R: []byte{c.I32}}}, {Sig: c.Sig{R: []byte{c.I32}}}, {Sig: c.Sig{P: []byte{c.I32}, R: []byte{c.I32}}}, {Sig: c.Sig{R: []byte{c.I32}}}}
 		// function indices in the schedule are offset by the (absent) host imports: exports are named f4..f7 for uniformity
-		sched := [][]uint64{{0, 5}, {1, 5}, {1, 5}, {0, 6, 0}, {1, 7}, {0, 6, 0}, {1, 6, 0}, {2, 5}, {2, 6, 0}, {0, 5}}
-		cases = append(cases, Case{ID: len(cases), Store: "", HRes: nil, N: 3, Sched: sched, Wasm: hex.EncodeToString(bin), Engines: map[string]EngObs{}})
+		// instances 0 and 2 live in the same runtime and come from the same compiled module, 1 in the other runtime:
+		// 1 drops (must not affect 0), later 2 drops (must not affect 0 either, nor 3 created from the same compiled module)
+		sched := [][]uint64{{0, 5}, {1, 5}, {1, 5}, {0, 6, 0}, {1, 7}, {0, 6, 0}, {1, 6, 0}, {2, 5}, {2, 6, 0}, {0, 5},
+			{2, 7}, {0, 6, 0}, {2, 6, 0}, {3, 6, 0}, {0, 7}, {3, 6, 0}, {1, 6, 0}}
+		cases = append(cases, Case{ID: len(cases), Store: "", HRes: nil, N: 4, Sched: sched, Wasm: hex.EncodeToString(bin), Engines: map[string]EngObs{}})
 		mods, bins = append(mods, ms), append(bins, bin)
 	}
 	// fixed case 2: a function reference created AT RUN TIME by the ref.func instruction (not by an initialiser), stored
